@@ -581,7 +581,43 @@ def rule_R25(text, fired):
         _count(fired, 'R25')
 
 
+# ---- R26: a datatype constructor used as a function value ---------------------------------------------
+R26_RX = re.compile(r'\.map\(\s*((?:[A-Z][A-Za-z0-9_]*::)+[A-Z][A-Za-z0-9_]*)\s*\)')
+
+
+def rule_R26(text, fired):
+    """`.map(Type::Variant)` -> `.map(|x_| Type::Variant(x_))` (eta-expansion; this Verus rejects a constructor as a function value)."""
+    def rep(m):
+        _count(fired, 'R26')
+        return f'.map(|x_| {m.group(1)}(x_))'
+    return R26_RX.sub(rep, text)
+
+
+# ---- R27: a local closure without parameters, called by name ----------------------------------------------
+R27_RX = re.compile(r'let\s+(?:mut\s+)?([a-z_][a-z0-9_]*)\s*=\s*\|\|\s*([^;{}]+);')
+
+
+def rule_R27(text, fired):
+    """`let [mut] f = || EXPR; ... f(); ...` -> every `f()` replaced by `(EXPR)` and the `let` dropped (beta-reduction of a local
+    closure that takes no arguments; this Verus has no closures that mutate what they capture).  Refuses when `f` occurs other than as `f()`."""
+    while True:
+        m = R27_RX.search(text)
+        if not m:
+            return text
+        name, expr = m.group(1), m.group(2).strip()
+        rest = text[m.end():]
+        uses = len(re.findall(r'\b' + name + r'\b', rest))
+        calls = len(re.findall(r'\b' + name + r'\(\)', rest))
+        if uses != calls or calls == 0:
+            raise Refuse('R27: local closure used other than by calling it')
+        rest = re.sub(r'\b' + name + r'\(\)', '(' + expr + ')', rest)
+        text = text[:m.start()] + rest
+        _count(fired, 'R27')
+
+
 RULES = {
+    'R27': rule_R27,
+    'R26': rule_R26,
     'R25': rule_R25,
     'R24': rule_R24,
     'R23': rule_R23,
@@ -602,7 +638,7 @@ RULES = {
     'R9': rule_R9,
     'R13': rule_R13,
 }
-ORDER = ['R25', 'R24', 'R23', 'R22', 'R21', 'R19', 'R20', 'R10', 'R2', 'R9', 'R6b', 'R6', 'R7', 'R13', 'R14', 'R15', 'R16', 'R18', 'R5']
+ORDER = ['R27', 'R26', 'R25', 'R24', 'R23', 'R22', 'R21', 'R19', 'R20', 'R10', 'R2', 'R9', 'R6b', 'R6', 'R7', 'R13', 'R14', 'R15', 'R16', 'R18', 'R5']
 
 
 def apply_rules(text, active, fired, extra_subs=()):
